@@ -1,6 +1,7 @@
 package main
 
 import (
+	"go/ast"
 	"fmt"
 	"go/constant"
 	"go/token"
@@ -95,6 +96,7 @@ type Exec struct {
 	privateAllocs []privAlloc
 	skolems       map[string]Term
 	instCands     map[string][]Term
+	qhyps         []qHyp
 	inRequires    bool
 	lkRequired    map[string]bool
 	lkInit        map[string]bool
@@ -215,7 +217,34 @@ func (ex *Exec) getFrom(heap map[string]Term, comp, sort string) Term {
 }
 
 // skolemFor: one constant per quantified clause (keyed by its text) of the function under verification.
-func (ex *Exec) skolemFor(key, sort string) Term {
+// candClass: instantiation candidates are pooled by sort; Int-sorted terms are further split into indices (Go integers)
+// and references (pointers, maps, ...) so that index quantifiers are not instantiated at references and vice versa.
+func candClass(sort string, t types.Type) string {
+	if sort != SInt {
+		return sort
+	}
+	if t != nil {
+		if b, ok := t.Underlying().(*types.Basic); ok && b.Info()&types.IsInteger != 0 {
+			return "Int#idx"
+		}
+	}
+	return "Int#ref"
+}
+
+func (ex *Exec) addCand(class string, t Term) bool {
+	if ex.instCands == nil {
+		ex.instCands = map[string][]Term{}
+	}
+	for _, c := range ex.instCands[class] {
+		if c.S == t.S {
+			return false
+		}
+	}
+	ex.instCands[class] = append(ex.instCands[class], t)
+	return true
+}
+
+func (ex *Exec) skolemFor(key, sort string, typ types.Type) Term {
 	if ex.skolems == nil {
 		ex.skolems = map[string]Term{}
 	}
@@ -224,11 +253,72 @@ func (ex *Exec) skolemFor(key, sort string) Term {
 	}
 	t := ex.sc.freshConst("sk", sort)
 	ex.skolems[key] = t
-	if ex.instCands == nil {
-		ex.instCands = map[string][]Term{}
-	}
-	ex.instCands[sort] = append(ex.instCands[sort], t)
+	ex.addCand(candClass(sort, typ), t)
 	return t
+}
+
+// qHyp: an assumed clause with quantifiers, kept so that it can be instantiated again at candidate terms that appear later
+// (loop indices). env holds snapshots of the states the clause was assumed in.
+type qHyp struct {
+	env   Env
+	expr  ast.Expr
+	guard Term
+}
+
+func (ex *Exec) hasForall(e ast.Expr, depth int) bool {
+	found := false
+	ast.Inspect(e, func(n ast.Node) bool {
+		if ce, ok := n.(*ast.CallExpr); ok {
+			if id, ok := ce.Fun.(*ast.Ident); ok {
+				if id.Name == "forall" {
+					found = true
+				} else if d, ok := ex.V.specs.defines[id.Name]; ok && depth < 8 && ex.hasForall(d.Body, depth+1) {
+					found = true
+				}
+			}
+		}
+		return !found
+	})
+	return found
+}
+
+// recordQ remembers a quantified assumption (made under guard) for later re-instantiation.
+func (ex *Exec) recordQ(env *Env, expr ast.Expr, guard Term) {
+	if !ex.hasForall(expr, 0) {
+		return
+	}
+	c := *env
+	if c.st != nil {
+		c.st = c.st.clone()
+	}
+	if c.old != nil {
+		c.old = c.old.clone()
+	}
+	vars := map[string]tv{}
+	for k, v := range env.vars {
+		vars[k] = v
+	}
+	c.vars = vars
+	ex.qhyps = append(ex.qhyps, qHyp{env: c, expr: expr, guard: guard})
+}
+
+// addCandidate registers a new instantiation term and instantiates the recorded quantified assumptions at it.
+func (ex *Exec) addCandidate(t Term, typ types.Type) {
+	if len(ex.qhyps) == 0 {
+		return
+	}
+	if !ex.addCand(candClass(t.Sort, typ), t) {
+		return
+	}
+	for i := range ex.qhyps {
+		q := ex.qhyps[i]
+		env := q.env
+		v, err := env.trans(q.expr)
+		if err != nil {
+			continue
+		}
+		ex.sc.assert(implies(q.guard, v.t))
+	}
 }
 
 type privAlloc struct {
@@ -812,6 +902,7 @@ func (ex *Exec) runBody(f *frame, entry *State, params []Term) {
 			saved := f.results
 			f.results = r.vals
 			env := ex.frameEnv(f, r.st, f.entry)
+			env.goal = true
 			for _, cl := range f.contract.EachRet {
 				v, err := env.trans(cl.Expr)
 				if err != nil {
@@ -899,6 +990,7 @@ func (ex *Exec) siteAsserts(f *frame, st *State, b *ssa.BasicBlock, ins ssa.Inst
 		env := ex.frameEnv(f, st, f.entry)
 		env.siteBlock = b
 		env.siteInstr = ins
+		env.goal = true
 		v, err := env.trans(sa.Expr)
 		if err != nil {
 			ex.oblige(f, st, "assert", sa.Label+":does-not-attach", sa.Label, ins.Pos(), tFalse, "the contract no longer attaches to the code ("+err.Error()+"): "+sa.Text)
@@ -964,6 +1056,11 @@ func (ex *Exec) enterLoop(f *frame, st *State, h *ssa.BasicBlock, li *loopInfo, 
 		nv := sc.declare(f.name(phi), sc.sortOf(phi.Type()))
 		f.vals[phi] = nv
 		ex.wellTyped(st, nv, phi.Type())
+		if b, ok := phi.Type().Underlying().(*types.Basic); ok && b.Info()&types.IsInteger != 0 && !f.inline {
+			// loop indices are instantiation candidates for the quantified assumptions made so far
+			ex.addCandidate(nv, phi.Type())
+			ex.addCandidate(app(SInt, "+", nv, intLit(1)), phi.Type())
+		}
 		// automatic monotonicity fact: phi = [init, phi + k] with k > 0  ==> phi >= init
 		for i, p := range h.Preds {
 			if !isBackEdge(p, h) {
